@@ -1,11 +1,14 @@
 package core
 
 import (
+	"context"
 	"fmt"
+	"runtime"
 	"runtime/debug"
 	"strings"
 	"sync"
 	"testing"
+	"time"
 
 	erpc "github.com/henrylee2cn/erpc/v6"
 	"pgregory.net/rapid"
@@ -25,6 +28,21 @@ type c20DirtySpec struct {
 	ReqPipe  []byte
 	Kind     string // call | push | clientpush (a Push launched by the server side)
 	OtherSes bool
+	Ctx      string // "" | value | deadline: the context.Context the caller attaches to the request
+	AgedSes  bool   // the request travels on a session whose serving end has a context age (handler contexts get a deadline)
+}
+
+type c20CtxKey struct{}
+
+func c20Context(kind string) (context.Context, context.CancelFunc) {
+	switch kind {
+	case "value":
+		return context.WithValue(context.Background(), c20CtxKey{}, "left behind"), func() {}
+	case "deadline":
+		ctx, cancel := context.WithTimeout(context.Background(), time.Hour)
+		return context.WithValue(ctx, c20CtxKey{}, "left behind"), cancel
+	}
+	return nil, func() {}
 }
 
 type C20Arg struct {
@@ -51,6 +69,9 @@ type c20Seen struct {
 	OutMethod    string
 	StatusOK     bool
 	SessSwapOnly bool
+	CtxValue     interface{}
+	CtxErr       error
+	CtxDeadline  bool
 }
 
 var c20 struct {
@@ -104,6 +125,11 @@ func C20Probe(ctx erpc.CallCtx, a *C20Arg) (*C20Arg, *erpc.Status) {
 	if rc, ok := ctx.(erpc.ReadCtx); ok {
 		s.StatusOK = rc.StatusOK()
 	}
+	if cc := ctx.Context(); cc != nil {
+		s.CtxValue = cc.Value(c20CtxKey{})
+		s.CtxErr = cc.Err()
+		_, s.CtxDeadline = cc.Deadline()
+	}
 	c20.Lock()
 	c20.seen = append(c20.seen, s)
 	c20.Unlock()
@@ -120,6 +146,8 @@ func genC20Dirty(t *rapid.T) c20DirtySpec {
 		ReqMeta:  rapid.IntRange(0, 3).Draw(t, "reqmeta"),
 		Kind:     rapid.SampledFrom([]string{"call", "call", "push", "clientpush"}).Draw(t, "kind"),
 		OtherSes: rapid.Bool().Draw(t, "otherses"),
+		Ctx:      rapid.SampledFrom([]string{"", "value", "deadline"}).Draw(t, "ctx"),
+		AgedSes:  rapid.IntRange(0, 3).Draw(t, "agedses") == 0,
 	}
 	if rapid.Bool().Draw(t, "haspipe") {
 		d.Pipe = rapid.SliceOfN(rapid.SampledFrom(vt.RegisteredXfer), 1, 2).Draw(t, "pipe")
@@ -132,7 +160,7 @@ func genC20Dirty(t *rapid.T) c20DirtySpec {
 
 func (d c20DirtySpec) kinds() int {
 	n := 0
-	for _, b := range []bool{d.Meta > 0, d.Codec != 0, len(d.Pipe) > 0, d.Swap > 0, d.Err, d.BodyLen > 0, d.ReqMeta > 0, len(d.ReqPipe) > 0} {
+	for _, b := range []bool{d.Meta > 0, d.Codec != 0, len(d.Pipe) > 0, d.Swap > 0, d.Err, d.BodyLen > 0, d.ReqMeta > 0, len(d.ReqPipe) > 0, d.Ctx != "", d.AgedSes} {
 		if b {
 			n++
 		}
@@ -141,7 +169,7 @@ func (d c20DirtySpec) kinds() int {
 }
 
 func TestC20Context(t *testing.T) {
-	rec := vt.NewRec(t, "C20", "context", "black box: 1-4 'dirty' requests (handler adds reply metadata, sets reply codec and pipe, stores context swap entries, fails with a status or returns a large body; request carries metadata and a pipe; calls, pushes and pushes launched by the serving side) are followed by a plain probe request on the same or another session; oracle: the probe handler sees an empty context swap, only its own request metadata, a default output message (no metadata, nil codec, empty pipe, OK status, size 0) and the captured reply frame to the probe carries no metadata/pipe/status/codec of the dirty requests and exactly the probe's body; non-trivial = the dirty requests set >=3 distinct kinds of state; distinct by the dirty specs")
+	rec := vt.NewRec(t, "C20", "context", "black box: 1-4 'dirty' requests (handler adds reply metadata, sets reply codec and pipe, stores context swap entries, fails with a status or returns a large body; request carries metadata, a pipe and optionally a context.Context with a value / deadline, optionally on a session with a context age; half the cases run on a single P so that pooled objects are reused at once; calls, pushes and pushes launched by the serving side) are followed by a plain probe request on the same or another session; oracle: the probe handler sees an empty context swap, the default ctx.Context() (no value, no deadline, no error), only its own request metadata, a default output message (no metadata, nil codec, empty pipe, OK status, size 0) and the captured reply frame to the probe carries no metadata/pipe/status/codec of the dirty requests and exactly the probe's body; non-trivial = the dirty requests set >=3 distinct kinds of state; distinct by the dirty specs")
 	old := debug.SetGCPercent(-1)
 	defer debug.SetGCPercent(old)
 	protos := vt.StreamProtos()
@@ -158,6 +186,12 @@ func TestC20Context(t *testing.T) {
 			}
 		}
 		probeMeta := rapid.IntRange(0, 2).Draw(t, "probemeta")
+		// pooled objects are cached per P: with a single P the object released last is the
+		// one handed out next, which makes reuse by the probe the rule rather than luck
+		if rapid.Bool().Draw(t, "singleP") {
+			defer runtime.GOMAXPROCS(runtime.GOMAXPROCS(1))
+		}
+		fenceCtx := rapid.SampledFrom([]string{"", "value", "deadline"}).Draw(t, "fencectx")
 		rec.Case(fmt.Sprintf("%s|%+v|%d", proto.Name, dirty, probeMeta), kinds >= 3, "proto="+proto.Name)
 		if rec.WantSample() && kinds >= 3 {
 			rec.Sample(map[string]interface{}{"proto": proto.Name, "dirty": dirty, "probe_meta_pairs": probeMeta})
@@ -175,7 +209,13 @@ func TestC20Context(t *testing.T) {
 		cliPush := cli.RoutePushFunc(C20DirtyPush)
 		l1 := w.Connect(cli, srv, proto, func(p *vt.Pair) { p.SetCapture(vt.BtoA, true) })
 		l2 := w.Connect(cli, srv, proto, func(p *vt.Pair) { p.SetCapture(vt.BtoA, true) })
-		if l1.A == nil || l2.A == nil || l1.B == nil || l2.B == nil {
+		// a serving peer whose sessions have a context age: its handler contexts get a deadline
+		srvAged := w.Peer(erpc.PeerConfig{DefaultContextAge: time.Hour})
+		srvAged.RouteCallFunc(C20Dirty)
+		srvAged.RoutePushFunc(C20DirtyPush)
+		srvAged.RouteCallFunc(C20Probe)
+		l3 := w.Connect(cli, srvAged, proto, nil)
+		if l1.A == nil || l2.A == nil || l1.B == nil || l2.B == nil || l3.A == nil || l3.B == nil {
 			t.Fatalf("connect failed")
 		}
 		for _, d := range dirty {
@@ -183,7 +223,14 @@ func TestC20Context(t *testing.T) {
 			if d.OtherSes {
 				l = l2
 			}
+			if d.AgedSes {
+				l = l3
+			}
 			var settings []erpc.MessageSetting
+			if cc, cancel := c20Context(d.Ctx); cc != nil {
+				defer cancel()
+				settings = append(settings, erpc.WithContext(cc))
+			}
 			for i := 0; i < d.ReqMeta; i++ {
 				settings = append(settings, erpc.WithAddMeta(fmt.Sprintf("Req-Dirty-%d", i), "rq"))
 			}
@@ -202,8 +249,14 @@ func TestC20Context(t *testing.T) {
 			}
 		}
 		// let asynchronous push handling finish: a call on each session is read after them
-		l1.A.Call(probeRoute+"-fence", nil, nil)
-		l2.A.Call(probeRoute+"-fence", nil, nil)
+		var fenceSettings []erpc.MessageSetting
+		if cc, cancel := c20Context(fenceCtx); cc != nil {
+			defer cancel()
+			fenceSettings = append(fenceSettings, erpc.WithContext(cc))
+		}
+		l3.A.Call(probeRoute+"-fence", nil, nil, fenceSettings...)
+		l2.A.Call(probeRoute+"-fence", nil, nil, fenceSettings...)
+		l1.A.Call(probeRoute+"-fence", nil, nil, fenceSettings...)
 		// the probe
 		var settings []erpc.MessageSetting
 		var wantMeta []string
@@ -238,6 +291,9 @@ func TestC20Context(t *testing.T) {
 		}
 		if s.OutMeta != 0 || s.OutCodec != 0 || s.OutPipe != 0 || !s.OutStatusOK || s.OutSize != 0 || !s.OutBodyNil || !s.StatusOK {
 			t.Fatalf("the probe's output message / context is not in its default state: %+v", s)
+		}
+		if s.CtxValue != nil || s.CtxErr != nil || s.CtxDeadline {
+			t.Fatalf("the probe's ctx.Context() is not the default one: value %v, err %v, has deadline %v (a context attached to an earlier call or an earlier session's context age)", s.CtxValue, s.CtxErr, s.CtxDeadline)
 		}
 		// the reply frame to the probe, as captured on the wire
 		writes := l1.Pair.Writes(vt.BtoA)[before:]
